@@ -591,10 +591,34 @@ type BuildOpts struct {
 	// first - the order of a caller that fills a tree in as it goes. Sizes that
 	// were taken early must not stick.
 	TopDown bool
+	// Literal: AVP and GroupedAVP struct literals instead of the constructors ("requires at
+	// least the Code, Flags and Data fields set"): the Length field is never set.
+	Literal bool
+}
+
+func (a *AVP) literal(o BuildOpts) *diam.AVP {
+	fl := a.Flags
+	if a.Vendor != 0 {
+		fl |= 0x80 // a literal has no constructor to add the V bit
+	}
+	out := &diam.AVP{Code: a.Code, Flags: fl, VendorID: a.Vendor}
+	if a.V.T == TGrouped {
+		g := &diam.GroupedAVP{}
+		for _, c := range a.Children {
+			g.AVP = append(g.AVP, c.literal(o))
+		}
+		out.Data = g
+		return out
+	}
+	out.Data = a.V.ToDatatype()
+	return out
 }
 
 // Build assembles the AVP through the public constructors.
 func (a *AVP) Build(o BuildOpts) *diam.AVP {
+	if o.Literal {
+		return a.literal(o)
+	}
 	if !o.TopDown || a.V.T != TGrouped {
 		return a.ToDiamAVPOpt(o.DropV)
 	}
